@@ -20,6 +20,7 @@ independence of the instances; whitespace / comment invariance (metamorphic).
 Known-finding candidates are generated only with `VERIF_C08_FINDINGS=1` (see notes/C08_findings.md); every
 such case carries a stable `shape` id.
 """
+import collections
 import copy
 import json
 import os
@@ -37,7 +38,11 @@ RULE = ("random include trees in a temporary directory tree (1-9 files, nested d
         "[molecules] with repeated names and counts 0-3, random blank lines / comments / star comments / blanks and "
         "tabs before, inside and after every kind of line incl. #include/#define/#ifdef/#error; plus a malformed stream (missing file, unclosed or stray conditionals, "
         "nested conditionals, unknown pragma/section, misformatted header, unknown molecule, bad count, "
-        "Buckingham, include cycle).  distinct = hash of the file tree; a case is non-trivial when it has >= 1 include")
+        "Buckingham, include cycle).  distinct = hash of the file tree; a case is non-trivial when it has >= 1 include.  "
+        "Single raw lines: `tokenize` (fuzzed lines vs split_comments + str.split) and `dispatch` (the model's classify vs the "
+        "REAL TOPDirector.dispatch / is_pragma / is_star_comment / is_section_header and the section name the real "
+        "parse_header computes): EXHAUSTIVE over all strings of length <= 5 (thorough <= 6) over the alphabet "
+        "{a # * [ ] ; blank tab}, plus hand-written and random longer lines with \\n \\r \\x0b \\x0c, upper case, inner blanks/tabs")
 
 FINDINGS = True
 FINDING_SHAPES = ["tab-inside-section-header", "include-inside-moleculetype", "section-across-files", "molecules-in-included-file",
@@ -749,19 +754,91 @@ def judge_noise(ctx, item, seed):
     ctx.tally(whitespace_checked=True)
 
 
-def tokenizer_cases(ctx):
-    """the tokenizer of the model vs vermouth's split_comments + str.split on fuzzed lines"""
+DISPATCH_ALPHABET = ["a", "#", "*", "[", "]", ";", " ", "\t"]      # one character of every class the lexer distinguishes
+DISPATCH_SEEDS = ["[ Atoms ]", "[ moleculeType ]", "[ a b ]", "[a\tb]", "[\ta\t]", "[ a ] x", "[a", "a ]", "  [ x ] ; c", "[;]",
+                  "[ a ;]", "a;[", "[]", "[ ]", "[  ]", "]", "][", "[ [a] ]", "[[ a ]]", "[ a ]]", "[ A\x0b]", "[ a ]\n", "[ a ]\r\n",
+                  "\x0c[ a ]", "#include \"x\"", "#ifdef\tX", "#", "# define A", "#define A ; c", "\t#define A 1", " # ", "*x", " * x", "*",
+                  "* [ a ]", "a * #", "a # [", "a\x0bb\x0cc\rd\ne", "\n", "\r\n", " \x0b\x0c ", "A B\tC", ";#", ";*", ";[", "#;", "*;", "[;"]
+
+
+def real_dispatch(topology, line):
+    """what `LineParser.parse` (split_comments with TOPDirector.COMMENT_CHAR, skip when empty) and the REAL
+    `TOPDirector.dispatch` make of one raw line: None (skipped) | [kind, ...].  The section name of a header is the
+    one the real `parse_header` leaves in `section` on a fresh director."""
     from vermouth.parser_utils import split_comments
+    from polyply.src.top_parser import TOPDirector
+    data, _ = split_comments(line, TOPDirector.COMMENT_CHAR)
+    if not data:
+        return None
+    director = TOPDirector(topology)
+    try:
+        method = director.dispatch(data)
+    except IOError:
+        return ["badHeader"]
+    if method == director.parse_top_pragma:
+        return ["pragma", data.split()]
+    if method == director.parse_header:
+        method(data, 0)
+        return ["header", director.section[-1]]
+    if method == director.parse_section:
+        return ["content", data.split()]
+    # anything else must be a method that ignores the line (the star comment goes to `_skip`)
+    before = (list(director.section), director.current_meta, director.current_itp, list(director.itp_lines),
+              list(director.molecules))
+    result = method(data, 0)
+    after = (list(director.section), director.current_meta, director.current_itp, list(director.itp_lines),
+             list(director.molecules))
+    if result is None and before == after:
+        return ["star"]
+    return ["other", getattr(method, "__name__", str(method))]
+
+
+def lexer_cases(ctx):
+    """two streams over single raw lines, asked from the model in ONE driver call:
+    `tokenize` — the tokenizer of the model vs vermouth's split_comments + str.split on fuzzed lines;
+    `dispatch` — the model's `classify` vs the REAL `TOPDirector.dispatch` (is_pragma, is_star_comment,
+    SectionLineParser.is_section_header / dispatch) and the section name the REAL `parse_header` computes:
+    EXHAUSTIVE over all strings of length <= 5 (thorough: <= 6) over DISPATCH_ALPHABET, plus hand-written and
+    random longer lines with the other white-space characters, upper case, headers with inner blanks / tabs."""
+    import itertools
+    import vermouth.forcefield
+    from vermouth.parser_utils import split_comments
+    from polyply.src.topology import Topology
     rng = ctx.rng
     alphabet = ["a", "B", "1", ".", "-", "#", "[", "]", "*", ";", " ", " ", "\t", "\"", "_", "/"]
     lines = ["", " ", ";", " ; x", "[ atoms ] ; c", "#include \"a/b.itp\"", "a;b;c", "\t1 2\t3  ;;"]
     for _ in range(ctx.budget(150, 1500)):
         lines.append("".join(rng.choice(alphabet) for _ in range(rng.randint(0, 14))))
-    answers = ctx.driver.ask([dict(op="tokenize", lines=lines)])[0]
-    for line, toks in zip(lines, answers["tokens"]):
+    maxlen = ctx.budget(5, 6)
+    exhaustive = ["".join(t) for n in range(maxlen + 1) for t in itertools.product(DISPATCH_ALPHABET, repeat=n)]
+    wide = ["a", "b", "A", "Z", "1", "#", "#", "*", "[", "[", "]", "]", ";", " ", " ", " ", "\t", "\n", "\r", "\x0b", "\x0c", "\"", "_"]
+    extra = list(DISPATCH_SEEDS)
+    for _ in range(ctx.budget(600, 6000)):
+        body = "".join(rng.choice(wide) for _ in range(rng.randint(1, 12)))
+        roll = rng.random()
+        if roll < 0.35:                       # header-like
+            body = rng.choice(["", " ", "\t", "\x0c "]) + "[" + body + rng.choice(["]", "]", " ]", "\t]", "] x", ""]) + \
+                rng.choice(["", " ", "\n", "\r\n", " ; c"])
+        elif roll < 0.5:
+            body = rng.choice(["", " ", "\t"]) + rng.choice(["#", "*"]) + body
+        extra.append(body)
+    answers = ctx.driver.ask([dict(op="tokenize", lines=lines), dict(op="classify", lines=exhaustive + extra)])
+    for line, toks in zip(lines, answers[0]["tokens"]):
         data, _ = split_comments(line, ";")
         ctx.correspond("tokenize", data.split(), toks, dict(kind="tokenize", line=line))
     ctx.tally(tokenizer_lines=len(lines))
+    topology = Topology(vermouth.forcefield.ForceField("verif"))
+    kinds = collections.Counter()
+    for line, model in zip(exhaustive + extra, answers[1]["kinds"]):
+        impl = real_dispatch(topology, line)
+        ctx.correspond("dispatch", impl, model, dict(kind="dispatch", line=line))
+        kinds[impl[0] if impl else "skipped"] += 1
+    ctx.tally(**{"dispatch_exhaustive_len<=%d_over_%d_chars" % (maxlen, len(DISPATCH_ALPHABET)): len(exhaustive),
+                 "dispatch_random_lines": len(extra)})
+    ctx.tally(**{"dispatch_kind_" + k: v for k, v in kinds.items()})
+    ctx.extra["dispatch_stream"] = ("dispatch: exhaustive over all %d strings of length <= %d over %r + %d hand-written/random "
+                                    "longer lines; kinds %s" % (len(exhaustive), maxlen, "".join(DISPATCH_ALPHABET), len(extra),
+                                                                dict(kinds)))
 
 
 # ------------------------------------------------------------------------------------------------ driver
@@ -807,8 +884,11 @@ MALFORMED = ["missing-file", "missing-file-inactive", "unclosed-conditional", "s
 
 def run(ctx):
     ctx.extra["rule"] = RULE
-    ctx.extra["trusted"] = ["vermouth SectionLineParser/LineParser (parse loop, split_comments), vermouth read_itp and "
+    ctx.extra["trusted"] = ["vermouth LineParser.parse (the loop: split_comments with COMMENT_CHAR, skip empty lines, "
+                            "dispatch(line)(line, lineno) — re-enacted line by line by the `dispatch` stream), vermouth read_itp and "
                             "Block.to_molecule (the model hands the collected moleculetype lines on unchanged)",
+                            "white space is one of the six ASCII characters blank \\t \\n \\r \\x0b \\x0c and section names are ASCII "
+                            "(str.split/strip/casefold know more)",
                             "the file system (modelled as a finite map from lexically normalised path to lines)",
                             "CPython float()/int() on the number tokens"]
     ctx.extra["explanation"] = (
@@ -817,7 +897,10 @@ def run(ctx):
         "(direction tree-read => flat-read); the counter `theorem_hypothesis_holds` in input_distribution says how many "
         "generated trees are in that class.  The five dropped well-formedness clauses have kernel-checked counterexamples "
         "(C08_cx_*) that the harness replays on the real code under VERIF_C08_FINDINGS=1 (shapes in notes/C08_findings.md). "
-        "The model is tied to the code by the translated section/atom_idxs tables and by the correspondence on every tree "
+        "The model is tied to the code by the translated tables (sections, atom_idxs, and the literals of _defaults, _atomtypes, "
+        "pragma_actions, header_actions, the #else inversion dict, COMMENT_CHAR — theorems C08_*_anchor / C08_inverse_table / "
+        "C08_pragma_dispatch / C08_comment_char break when such a literal changes), by the exhaustive `dispatch` stream on "
+        "single lines and by the correspondence on every tree "
         "(tree read and flattened read); the oracle is the relation of the statement between two REAL reads, plus #error iff, "
         "[molecules] expansion, instance independence (mutation), whitespace/comment metamorphism and 'every moleculetype "
         "equals its text read alone by vermouth'.")
@@ -827,7 +910,7 @@ def run(ctx):
                         "no [ macros ] section and no `$` in content lines (vermouth macro substitution not modelled)",
                         "include paths contain no blanks"]
     rng = ctx.rng
-    tokenizer_cases(ctx)
+    lexer_cases(ctx)
     cases = corpus_cases()
     for i in range(ctx.budget(300, 3500)):
         malformed = rng.choice(MALFORMED) if rng.random() < 0.15 else None
@@ -851,5 +934,15 @@ def replay(ctx, data):
         inputs = [data.get("input", data)]
     cases = [inp["case"] for inp in inputs if inp.get("kind") == "tree"]
     run_cases(ctx, cases)
+    single = [inp["line"] for inp in inputs if inp.get("kind") == "dispatch"]
+    if single:
+        import vermouth.forcefield
+        from polyply.src.topology import Topology
+        topology = Topology(vermouth.forcefield.ForceField("verif"))
+        kinds = ctx.driver.ask([dict(op="classify", lines=single)])[0]["kinds"]
+        for line, model in zip(single, kinds):
+            impl = real_dispatch(topology, line)
+            print("dispatch %r: real code %s, model %s" % (line, impl, model))
+            ctx.correspond("dispatch", impl, model, dict(kind="dispatch", line=line))
     for b in ctx.broken:
         print("REPLAY-DISAGREES", b["name"], b["detail"][:400])
